@@ -14,71 +14,71 @@ TRUST = ("rustc/std; SHA-256 and RIPEMD-160 compression functions of bitcoin_has
 CHECKS = {
     "C01": ("differential PBT: generated chains -> data directory -> real binary, byte-exact comparison with an independent reference rendering (proptest, sharded, shrinking); in-process read_block round-trip; structure-aware libFuzzer target in the thorough tier",
             "exploration",
-            "Random exploration of the input space named by the property (all 8 coins, CompactSize boundary classes, segwit, --verify on/off) against a complete reference model of csvdump's output. It shows the property on every generated chain and shrinks any counterexample to a replayable data directory; it cannot show absence of a violation outside the explored cases.",
+            "Random exploration of the input space named by the property (all 8 coins, CompactSize boundary classes, segwit, --verify on/off) against a complete reference model of csvdump's output. It shows the property on every generated chain and shrinks any counterexample to a replayable data directory; it cannot show absence of a violation outside the explored cases. Every chain is also run under generated environment dimensions (release or debug build of the tool, pipe or pseudo-terminal stdout, shifted wall clock, with or without -c for Bitcoin, dirty dump folder, verbosity, directory spelling, TZ).",
             "DESIGN.md section 7, C01"),
-    "C02": ("bounded-exhaustive enumeration of (tip, --start, --end, callback) for small tips plus random ranges on chains up to 60 blocks and heights up to 10^7; oracle = reference model applied to exactly s..=min(e,T) and a model-free slice relation",
+    "C02": ("bounded-exhaustive enumeration of (tip, --start, --end, callback) for small tips plus random ranges on chains up to 60 blocks and heights up to 10^7; oracle = reference model applied to exactly s..=min(e,T) and a model-free slice relation; chains longer than 2^16 blocks, base heights to 2^31, 1300 blk files under a descriptor limit, runs stopped across the 10-second progress tick (with and without --verify)",
             "exploration",
-            "Exhaustive over every accepted option combination for tip heights up to 4 (quick) / 6 (thorough) for all five callbacks, random beyond; each run is compared with the model restricted to the expected heights, so an off-by-one at either bound, a clamp or a file-name error is caught on the smallest chains.",
+            "Exhaustive over every accepted option combination for tip heights up to 4 (quick) / 6 (thorough) for all five callbacks, random beyond; each run is compared with the model restricted to the expected heights, so an off-by-one at either bound, a clamp or a file-name error is caught on the smallest chains. Every chain is also run under generated environment dimensions (release or debug build of the tool, pipe or pseudo-terminal stdout, shifted wall clock, with or without -c for Bitcoin, dirty dump folder, verbosity, directory spelling, TZ).",
             "DESIGN.md section 7, C02"),
-    "C03": ("metamorphic PBT: one logical chain written in generated physical layouts (files, order, gaps, decoys, holes > 4 GiB, file numbers to 2^64-1, VarInt widths, foreign keys); every layout's csvdump must equal the canonical layout's and the reference model",
+    "C03": ("metamorphic PBT: one logical chain written in generated physical layouts (files, order, gaps, decoys, holes > 4 GiB, file numbers to 2^64-1, VarInt widths, foreign keys); every layout's csvdump must equal the canonical layout's and the reference model; bounded-exhaustive VarInt width boundaries of height / file number / data offset; index write histories (overwritten, deleted records); indexes with a hole (prefix oracle); 700 unreferenced blk files under RLIMIT_NOFILE=64",
             "exploration",
-            "Random exploration of the layout space with construction (not filtering) of every dimension the statement names; the oracle is both model-free (layout A == layout B) and model-based. Layouts only reachable through unnamed magic values are not covered.",
+            "Random exploration of the layout space with construction (not filtering) of every dimension the statement names; the oracle is both model-free (layout A == layout B) and model-based. Layouts only reachable through unnamed magic values are not covered. Every chain is also run under generated environment dimensions (release or debug build of the tool, pipe or pseudo-terminal stdout, shifted wall clock, with or without -c for Bitcoin, dirty dump folder, verbosity, directory spelling, TZ).",
             "DESIGN.md section 7, C03"),
-    "C04": ("differential PBT over generated block indexes (active chain + header-only / stale / failed / reorged-out records, key order steered by nonce search) with a two-oracle scheme: correct expectation vs executable prediction of the open finding D7",
+    "C04": ("differential PBT over generated block indexes (active chain + header-only / stale / failed / reorged-out records, key order steered by nonce search) with a two-oracle scheme: correct expectation vs executable prediction of the open finding D7; ranges, --verify, generated status words of the active records, index write histories",
             "exploration",
-            "Every generated index is decided exactly: output == active chain (pass), == the D7 prediction (KNOWN-FINDING, listed in known_findings.json), anything else is a violation - so a different break of the property is still reported and a future repair passes silently.",
+            "Every generated index is decided exactly: output == active chain (pass), == the D7 prediction (KNOWN-FINDING, listed in known_findings.json), anything else is a violation - so a different break of the property is still reported and a future repair passes silently. Every chain is also run under generated environment dimensions (release or debug build of the tool, pipe or pseudo-terminal stdout, shifted wall clock, with or without -c for Bitcoin, dirty dump folder, verbosity, directory spelling, TZ).",
             "DESIGN.md sections 6 and 7, C04"),
-    "C05": ("differential PBT of scripts from a grammar (templates, one-byte mutations, truncations, all leading opcodes, witness versions x lengths, m-of-n, tokens, raw bytes) against a three-valued reference classifier plus an independent address round-trip decoder; E1 through csvdump/simplestats, E2 per script, E3 libFuzzer",
+    "C05": ("differential PBT of scripts from a grammar (templates, one-byte mutations, truncations, all leading opcodes, witness versions x lengths, m-of-n, tokens, raw bytes) against a three-valued reference classifier plus an independent address round-trip decoder; E1 through csvdump/simplestats, E2 per script, E3 libFuzzer; bounded-exhaustive in-process sets: every script of <= 2 bytes, complete one-edit neighbourhoods of 25 templates, two-substitution neighbourhoods of P2SH / P2WPKH",
             "exploration",
-            "Hundreds of thousands (quick) to tens of millions (thorough) of scripts per run, each checked for type set and exact address, and every reported address decoded by the harness's own Base58Check/Bech32(m) decoder back to the script. Regions the statement leaves open are three-valued and never alarmed.",
+            "Hundreds of thousands (quick) to tens of millions (thorough) of scripts per run, each checked for type set and exact address, and every reported address decoded by the harness's own Base58Check/Bech32(m) decoder back to the script. Regions the statement leaves open are three-valued and never alarmed. Every chain is also run under generated environment dimensions (release or debug build of the tool, pipe or pseudo-terminal stdout, shifted wall clock, with or without -c for Bitcoin, dirty dump folder, verbosity, directory spelling, TZ).",
             "DESIGN.md section 7, C05"),
-    "C06": ("differential PBT of scripts with every push form in every template slot against a strict reference tokeniser/template matcher with the published version bytes; E1 through csvdump/simplestats/opreturn on the six fork coins, E2 per script, E3 libFuzzer",
+    "C06": ("differential PBT of scripts with every push form in every template slot against a strict reference tokeniser/template matcher with the published version bytes; E1 through csvdump/simplestats/opreturn on the six fork coins, E2 per script, E3 libFuzzer; bounded-exhaustive in-process sets: every script of <= 2 bytes, complete one-edit neighbourhoods of 25 templates, two-substitution neighbourhoods of P2SH / P2WPKH, on all six coins",
             "exploration",
-            "Strict (two-valued) oracle, since the statement is explicit; exploration of the script grammar including zero-length/truncated pushes and NOP insertion, on all six coins.",
+            "Strict (two-valued) oracle, since the statement is explicit; exploration of the script grammar including zero-length/truncated pushes and NOP insertion, on all six coins. Every chain is also run under generated environment dimensions (release or debug build of the tool, pipe or pseudo-terminal stdout, shifted wall clock, with or without -c for Bitcoin, dirty dump folder, verbosity, directory spelling, TZ).",
             "DESIGN.md section 7, C06"),
     "C07": ("model-based PBT over spend histories: bounded-exhaustive enumeration of small histories plus random long ones (fan-in/out, same-block spends, duplicate txids, indices > 255, unknown outpoints), row-set equality with a reference UTXO map",
             "exploration",
-            "All histories of <=2 non-coinbase transactions over <=2 blocks are enumerated (exhaustive for that sub-space), long random histories beyond; the oracle is exact set equality incl. header and duplicates.",
+            "All histories of <=2 non-coinbase transactions over <=2 blocks are enumerated (exhaustive for that sub-space), long random histories beyond; the oracle is exact set equality incl. header and duplicates. Every chain is also run under generated environment dimensions (release or debug build of the tool, pipe or pseudo-terminal stdout, shifted wall clock, with or without -c for Bitcoin, dirty dump folder, verbosity, directory spelling, TZ).",
             "DESIGN.md section 7, C07"),
     "C08": ("model-based PBT over spend histories with recurring addresses: reference aggregation (u128) plus the model-free relation balances == aggregate(unspentcsvdump) on the same directory and range",
             "exploration",
-            "Two independent oracles per case (reference model and cross-callback relation), random histories with few keys so that multi-output and emptied addresses are common.",
+            "Two independent oracles per case (reference model and cross-callback relation), random histories with few keys so that multi-output and emptied addresses are common. Every chain is also run under generated environment dimensions (release or debug build of the tool, pipe or pseudo-terminal stdout, shifted wall clock, with or without -c for Bitcoin, dirty dump folder, verbosity, directory spelling, TZ).",
             "DESIGN.md section 7, C08"),
-    "C09": ("PBT with fault operators: consistent chains over every merkle tree shape class must pass --verify unchanged; single-bit flips in tx bytes / merkle field / prev field, foreign blocks and wrong genesis blocks must fail at exactly that height when processed; thorough tier enumerates every bit of one block",
+    "C09": ("PBT with fault operators: consistent chains over every merkle tree shape class must pass --verify unchanged; single-bit flips in tx bytes / merkle field / prev field, foreign blocks and wrong genesis blocks must fail at exactly that height when processed; thorough tier enumerates every bit of one block; re-linked block pairs, duplicate transactions (equal sibling nodes), merkle trees of depth 17, verified runs across the 10-second status tick",
             "exploration",
-            "Both directions of the iff are generated: completeness on consistent chains (8 coins, any --start) and soundness on faulted ones, incl. faults outside the processed range that must not fail.",
+            "Both directions of the iff are generated: completeness on consistent chains (8 coins, any --start) and soundness on faulted ones, incl. faults outside the processed range that must not fail. Every chain is also run under generated environment dimensions (release or debug build of the tool, pipe or pseudo-terminal stdout, shifted wall clock, with or without -c for Bitcoin, dirty dump folder, verbosity, directory spelling, TZ).",
             "DESIGN.md section 7, C09"),
-    "C10": ("enumerated fault injection on the real binary: input faults per height (remove/empty/truncate/offset past EOF), RLIMIT_FSIZE sweeps, strace-injected ENOSPC at the k-th dump-file write, SIGKILL at every dump-file syscall ordinal; plus random fault plans",
+    "C10": ("enumerated fault injection on the real binary: input faults per height (remove/empty/truncate/offset past EOF), RLIMIT_FSIZE sweeps, strace-injected ENOSPC at the k-th dump-file write, SIGKILL at every dump-file syscall ordinal; plus random fault plans; injected write errors ENOSPC / EIO / EPIPE / EDQUOT / EROFS / EBADF, tables beyond the 4 MB buffer for all three callbacks, empty ranges, every early byte of a block as truncation point",
             "fault_enumeration",
             "For a fixed generated chain every height x input fault kind, 27 size limits, every early write ordinal and every dump-file syscall ordinal (kill point) is enumerated for the three file-producing callbacks, incl. a chain whose files exceed the 4 MB buffers; random plans extend this to other chains and ranges. Crash points are syscall-granular; fsync/power-loss ordering is outside the statement.",
             "DESIGN.md section 7, C10"),
-    "C11": ("metamorphic PBT: plaintext directory vs its XOR-ed copy (generated keys of length 1..64, layouts forcing backward/forward seeks across the 32 KiB buffer and 4 GiB) for csvdump plus one generated callback; E2 stateful model test of XorReader over seek/read op lists; E3 libFuzzer",
+    "C11": ("metamorphic PBT: plaintext directory vs its XOR-ed copy (generated keys of length 1..64, layouts forcing backward/forward seeks across the 32 KiB buffer and 4 GiB) for csvdump plus one generated callback; E2 stateful model test of XorReader over seek/read op lists; E3 libFuzzer; keys up to 70 001 bytes, xor.dat behind symlinks, keys that alias the network magic to another coin's (run without -c)",
             "exploration",
-            "Whole-program equality between obfuscated and plain directories plus an in-process state-machine test of the reader against a plain array model.",
+            "Whole-program equality between obfuscated and plain directories plus an in-process state-machine test of the reader against a plain array model. Every chain is also run under generated environment dimensions (release or debug build of the tool, pipe or pseudo-terminal stdout, shifted wall clock, with or without -c for Bitcoin, dirty dump folder, verbosity, directory spelling, TZ).",
             "DESIGN.md section 7, C11"),
     "C12": ("differential + metamorphic PBT: Namecoin/Dogecoin chains with generated AuxPoW sections and versions around the threshold vs the reference model (with --verify), and vs the same blocks stored without sections under a non-AuxPoW coin; six other coins as negative control",
             "exploration",
-            "Random exploration of section shapes (legacy/segwit parent coinbase, branch lengths 0..40, masks) and of versions below/at/above the threshold, mixed in one chain.",
+            "Random exploration of section shapes (legacy/segwit parent coinbase, branch lengths 0..40, masks) and of versions below/at/above the threshold, mixed in one chain. Every chain is also run under generated environment dimensions (release or debug build of the tool, pipe or pseudo-terminal stdout, shifted wall clock, with or without -c for Bitcoin, dirty dump folder, verbosity, directory spelling, TZ).",
             "DESIGN.md section 7, C12"),
-    "C13": ("run-vs-run equality PBT: thread counts 1/2/3/8/16/64 and 64 threads pinned to one CPU under load; sequences of runs sharing a pre-seeded dump folder and one data directory with checksums of blk/xor files and a key/value dump of the index before and after",
+    "C13": ("run-vs-run equality PBT: thread counts 1/2/3/8/16/64 and 64 threads pinned to one CPU under load; sequences of runs sharing a pre-seeded dump folder and one data directory with checksums of blk/xor files and a key/value dump of the index before and after; thread counts up to 300; every later run of a sequence at another date (LD_PRELOAD clock shim) ; directories with competing index records processed by six fresh processes",
             "exploration",
-            "Schedules are sampled (thread counts, pinning, contention), not enumerated: reliable for order-destroying or state-carrying changes, weak for a break that needs one rare interleaving (DESIGN section 8).",
+            "Schedules are sampled (thread counts, pinning, contention), not enumerated: reliable for order-destroying or state-carrying changes, weak for a break that needs one rare interleaving (DESIGN section 8). Every chain is also run under generated environment dimensions (release or debug build of the tool, pipe or pseudo-terminal stdout, shifted wall clock, with or without -c for Bitcoin, dirty dump folder, verbosity, directory spelling, TZ).",
             "DESIGN.md sections 7 and 8, C13"),
-    "C14": ("totality PBT/fuzzing: hostile bytes placed in scriptPubKey / scriptSig / witness items of valid chains on 8 coins, all five callbacks must exit 0 and leave every non-derived row equal to the model (masked oracles); E2 catch_unwind over millions of scripts; E3 libFuzzer",
+    "C14": ("totality PBT/fuzzing: hostile bytes placed in scriptPubKey / scriptSig / witness items of valid chains on 8 coins, all five callbacks must exit 0 and leave every non-derived row equal to the model (masked oracles); E2 catch_unwind over millions of scripts; E3 libFuzzer; --verify re-runs; bounded-exhaustive short scripts and template neighbourhoods on all 8 coins",
             "exploration",
-            "Exploration of the hostile classes named by the statement (truncated pushes, huge PUSHDATA4, all leading opcodes, >255 pushes, 10-100 KB) with exit status and non-interference oracles in debug (overflow checks on) and, thorough tier, release builds.",
+            "Exploration of the hostile classes named by the statement (truncated pushes, huge PUSHDATA4, all leading opcodes, >255 pushes, 10-100 KB) with exit status and non-interference oracles in debug (overflow checks on) and, thorough tier, release builds. Every chain is also run under generated environment dimensions (release or debug build of the tool, pipe or pseudo-terminal stdout, shifted wall clock, with or without -c for Bitcoin, dirty dump folder, verbosity, directory spelling, TZ).",
             "DESIGN.md section 7, C14"),
-    "C15": ("differential PBT: the simplestats report is parsed and every figure recomputed independently (exact integers, rational means with a half-ulp tolerance of the printed decimals), incl. non-monotonic timestamps, gap sums beyond 2^32, ties, halving boundaries; E2 get_mean vs u128 mean",
+    "C15": ("differential PBT: the simplestats report is parsed and every figure recomputed independently (exact integers, rational means with a half-ulp tolerance of the printed decimals), incl. non-monotonic timestamps, gap sums beyond 2^32, ties, halving boundaries; E2 get_mean vs u128 mean; chains beyond 2^16 blocks / transactions per block, sums beyond 2^64, halving boundaries up to 70 halvings",
             "exploration",
-            "Every figure of the report is covered by an exact or toleranced comparison on each generated chain; the sum-of-sizes > 2^32 class is reached in-process through get_mean (E2) rather than with multi-GiB inputs.",
+            "Every figure of the report is covered by an exact or toleranced comparison on each generated chain; the sum-of-sizes > 2^32 class is reached in-process through get_mean (E2) rather than with multi-GiB inputs. Every chain is also run under generated environment dimensions (release or debug build of the tool, pipe or pseudo-terminal stdout, shifted wall clock, with or without -c for Bitcoin, dirty dump folder, verbosity, directory spelling, TZ).",
             "DESIGN.md section 7, C15"),
-    "C16": ("differential PBT: OP_RETURN single-push scripts in every push encoding x payload class (ASCII, multi-byte, invalid UTF-8, empty, newline) mixed with other scripts, exact stdout text vs model on 8 coins with ranges; E2 per-script payload extraction",
+    "C16": ("differential PBT: OP_RETURN single-push scripts in every push encoding x payload class (ASCII, multi-byte, invalid UTF-8, empty, newline) mixed with other scripts, exact stdout text vs model on 8 coins with ranges; E2 per-script payload extraction; outputs inside coinbase transactions, marker-prefixed payloads, heights of 10 digits, stdout on a pseudo terminal",
             "exploration",
-            "Byte-exact comparison of the printed lines in chain order on generated chains; shapes the statement leaves open are not generated here.",
+            "Byte-exact comparison of the printed lines in chain order on generated chains; shapes the statement leaves open are not generated here. Every chain is also run under generated environment dimensions (release or debug build of the tool, pipe or pseudo-terminal stdout, shifted wall clock, with or without -c for Bitcoin, dirty dump folder, verbosity, directory spelling, TZ).",
             "DESIGN.md section 7, C16"),
-    "C17": ("resource-bound PBT: RLIMIT_NOFILE calibrated by binary search on the single-file layout, multi-file layouts (disjoint/overlapping/interleaved spans, up to 300 files) must succeed under N0+(w-1); strace openat/close trace bounds the simultaneously open blk files by w",
+    "C17": ("resource-bound PBT: RLIMIT_NOFILE calibrated by binary search on the single-file layout, multi-file layouts (disjoint/overlapping/interleaved spans, up to 300 files) must succeed under N0+(w-1); strace openat/close trace bounds the simultaneously open blk files by w; files ending in stale siblings, XOR-ed directories, verbosity",
             "exploration",
-            "Two oracles per generated layout: success under the calibrated descriptor limit (model-derived slack w) and a trace invariant that closes the gap left by descriptors the start-up phase frees.",
+            "Two oracles per generated layout: success under the calibrated descriptor limit (model-derived slack w) and a trace invariant that closes the gap left by descriptors the start-up phase frees. Every chain is also run under generated environment dimensions (release or debug build of the tool, pipe or pseudo-terminal stdout, shifted wall clock, with or without -c for Bitcoin, dirty dump folder, verbosity, directory spelling, TZ).",
             "DESIGN.md section 7, C17"),
 }
 
